@@ -9,6 +9,9 @@ REL = "transactron/lib/storage.py"
 
 def check(ctx):
     ctx.use(REL)
+    from . import masklay
+
+    masklay.mask_layout(ctx, "C22", REL, "AsyncMemoryBank")
     comp = Component(ctx.repo, REL, "AsyncMemoryBank", rule="C22")
     comp.require_modelled("C22")
     ctx.floor("C22", "configurations", len(comp.configs), 2, comp.site)
@@ -56,6 +59,13 @@ def check(ctx):
 
 
 MUTANTS = [
+    ("mask-width-is-granularity", REL, """            write_layout.append(("mask", amaranth_write_port_sig.members["en"].shape))
+        self.writes_layout = make_layout(*write_layout)
+
+        self.read = Methods(read_ports, i=self.read_reqs_layout, o=self.read_resps_layout, src_loc=self.src_loc)""", """            write_layout.append(("mask", amaranth_write_port_sig.granularity))
+        self.writes_layout = make_layout(*write_layout)
+
+        self.read = Methods(read_ports, i=self.read_reqs_layout, o=self.read_resps_layout, src_loc=self.src_loc)"""),
     ("sync-read-port", REL, 'read_port = [mem.read_port(domain="comb") for _ in range(self.reads_ports)]', 'read_port = [mem.read_port(domain="sync") for _ in range(self.reads_ports)]'),
     ("read-wrong-port", REL, '            m.d.comb += read_port[i].addr.eq(addr)\n            return {"data": read_port[i].data}', '            m.d.comb += read_port[i].addr.eq(addr)\n            return {"data": read_port[0].data}'),
     ("write-en-av", REL, "            if self.granularity is None:\n                m.d.comb += write_port[i].en.eq(1)\n            else:\n                m.d.comb += write_port[i].en.eq(arg.mask)\n\n        return m\n", "            if self.granularity is None:\n                m.d.top_comb += write_port[i].en.eq(1)\n            else:\n                m.d.comb += write_port[i].en.eq(arg.mask)\n\n        return m\n"),
